@@ -5,6 +5,7 @@ CL = {(4, 1): "the player runner called, bet, raised or moved all-in on the play
       (4, 2): "the player runner paid something other than the posted ante / blind",
       (4, 3): "the player runner acted before the thinking time had elapsed (or not at once when suspended / passing)",
       (4, 4): "the player runner acted where the model does nothing",
+      (4, 6): "the player runner answered one request more than once (a late copy of an earlier request was taken for a new one, or a wait was armed twice)",
       (4, 5): "the player runner did not submit the most conservative action (pass when that is the only option, otherwise ready or check, otherwise fold, otherwise the mandatory payment) - another action, or none",
       (2, 4): "the player runner's move differs from the model's (pass > [suspended: at once] ready > check > fold > mandatory payment)"}
 
